@@ -11,6 +11,13 @@ from . import xl, xlerrors, xlcriteria, func_xltypes
 rand = np.random.rand
 
 
+def _finite(value):
+    """Excel has no infinity: a result that overflows is #NUM!."""
+    if np.isinf(value):
+        raise xlerrors.NumExcelError('result is too large')
+    return value
+
+
 @xl.register()
 @xl.validate_args
 def ABS(
@@ -34,6 +41,10 @@ def ACOS(
     https://support.office.com/en-us/article/
         acos-function-cb73173f-d089-4582-afa1-76e5524b5d5b
     """
+    if number < -1 or number > 1:
+        raise xlerrors.NumExcelError(
+            f'number {number} must be between -1 and 1')
+
     return np.arccos(float(number))
 
 
@@ -191,7 +202,7 @@ def COSH(
     https://support.office.com/en-us/article/
         cosh-function-e460d426-c471-43e8-9540-a57ff3b70555
     """
-    return np.cosh(float(number))
+    return _finite(np.cosh(float(number)))
 
 
 @xl.register()
@@ -204,7 +215,7 @@ def DEGREES(
     https://support.office.com/en-us/article/
         degrees-function-4d6ec4db-e694-4b94-ace0-1cc3f61f9ba1
     """
-    return np.degrees(float(angle))
+    return _finite(np.degrees(float(angle)))
 
 
 @xl.register()
@@ -237,7 +248,7 @@ def EXP(
     https://support.office.com/en-us/article/
         exp-function-c578f034-2c45-4c37-bc8c-329660a63abe
     """
-    return np.exp(float(number))
+    return _finite(np.exp(float(number)))
 
 
 @xl.register()
@@ -359,6 +370,9 @@ def LOG10(
     https://support.office.com/en-us/article/
         log10-function-c75b881b-49dd-44fb-b6f4-37e3486a0211
     """
+    if number <= 0:
+        raise xlerrors.NumExcelError(f'number {number} must be positive')
+
     return np.log10(float(number))
 
 
